@@ -258,8 +258,8 @@ def _strdate_body(i0, i1, k, which):
 # ------------------------------------------------------------------ broadcast methods and properties
 ELEMS = {
     'str': ['a b', 'Éa', '', ' x\t', '12', 'a,b,a', 'Title Case', 'ß'],
-    'int': [5, -3, 0, 2 ** 70, 255, True and 1],
-    'float': [2.5, -0.0, 1e300, 3.0, float('inf')],
+    'int': [5, -3, 0, 2 ** 70, 255, 1, True, -5],
+    'float': [2.5, -0.0, 0.0, 1e300, 3.0, float('inf'), -2.5],
     'date': [date(2020, 1, 31), date(1999, 12, 31), date(2024, 2, 29), date(1, 1, 1)],
 }
 ARGS = {
